@@ -344,6 +344,21 @@ class Hist:
         self.expect["sa1"] = dict(self.expect["sa2"])
         return self.frame(before, [(pos, nb)], "sa1._update(sa2)")
 
+    def op_str_update_other_size(self):
+        """an array of the same class but another total size: either taken over completely or refused with nothing
+        changed (never half written: PF19)"""
+        I = self.I
+        h = self.objs["sa1"]
+        small = I.call(self.SA, [["p", "q", "r"]], {"_buffer": self.ow.buf("B")})
+        before = self.snapshot()
+        _, pos, nb = self.extent(h)
+        try:
+            I.call(I.getattr(h, "_update"), [small], {})
+        except PyExc:
+            return self.frame(before, [], "refused sa1._update(<String[3] of another size>)")
+        self.expect["sa1"] = {"[0]": "p", "[1]": "q", "[2]": "r"}
+        return self.frame(before, [(pos, nb)], "sa1._update(<String[3] of another size>)")
+
     def op_str_item_fit(self):
         I = self.I
         h = self.objs["sa1"]
@@ -396,6 +411,7 @@ OPS = {
     "str-shrink-item": lambda H: H.op_str_shrink(),
     "str-update": lambda H: H.op_str_update(),
     "str-item-fit": lambda H: H.op_str_item_fit(),
+    "str-update-other-size": lambda H: H.op_str_update_other_size(),
     "str-item-too-long": lambda H: H.op_str_item_too_long(),
 }
 
@@ -452,13 +468,18 @@ def _worker(args):
     return [(h,) + run_history(model, h) for h in hists]
 
 
-@rule("SV", ["C06", "C10", "C09"], "structs with dynamic fields and arrays of them: after every history of {update, field/item assignment, copy, refused assignment} every kept handle agrees with a fresh view, reads the expected values, and nothing outside the target changed")
+@rule("SV", ["C06", "C10", "C09", "C11"], "structs with dynamic fields and arrays of them: after every history of {update, field/item assignment, copy, refused assignment} every kept handle agrees with a fresh view, reads the expected values, and nothing outside the target changed")
 def sv(cx):
     m = cx.m
     for q in ("struct::Struct._update", "struct::Struct._from_buffer", "struct::Struct.__init__", "struct::Field.get_offset", "array::Array._update", "array::Array.__setitem__", "array::Array._get_offset"):
         m.func(q)
     maxlen = 3 if cx.tier == "thorough" else 2
     hs = [h for n in range(1, maxlen + 1) for h in itertools.product(list(OPS), repeat=n)]
+    # C11 (refusals without side effects) and C09 (copies): the quick tier keeps the histories that END in such an operation
+    focus = {"C11": ("too-long", "str-item-too-long", "str-update-other-size"), "C09": ("copy-then-update-copy", "copy-to-other-buffer")}.get(cx.prop)
+    if focus and cx.tier != "thorough":
+        hs = [h for h in hs if h[-1] in focus]
+        cx.partial = True
     from concurrent.futures import ProcessPoolExecutor
 
     jobs = min(16, os.cpu_count() or 1)
@@ -484,6 +505,8 @@ def sv(cx):
     for o in OPS:
         anchor = [v for k, v in ANCH.items() if o.startswith(k)][0]
         n_with = sum(1 for h, f, e in results if o in h)
+        if not n_with:
+            continue
         fails = sorted(by_op[o], key=lambda t: (t[0], t[1]))
         if fails:
             ln, h, k, b = fails[0]
